@@ -892,7 +892,11 @@ class PathParser(object):
             return StringLiteral(token[1:-1])
         elif token[0].isdigit() or token[0] == '.':
             self.next_token()
-            return NumberLiteral(as_float(token))
+            number = as_float(token)
+            if number != number:
+                raise PathSyntaxError('Invalid number "%s"' % token,
+                                      self.filename, self.lineno)
+            return NumberLiteral(number)
         elif token == '$':
             token = self.next_token()
             self.next_token()
@@ -942,10 +946,22 @@ def as_scalar(value):
     else:
         return value
 
+_is_number = re.compile(r'[ \t\r\n]*-?(?:[0-9]+(?:\.[0-9]*)?|\.[0-9]+)'
+                        r'[ \t\r\n]*$').match
+
 def as_float(value):
     # FIXME - if value is a bool it will be coerced to 0.0 and consequently
     # compared as a float. This is probably not ideal.
-    return float(as_scalar(value))
+    value = as_scalar(value)
+    if value is None:
+        # the empty node set
+        return float('nan')
+    if isinstance(value, six.string_types):
+        # a string that is not an XPath Number converts to NaN
+        if not _is_number(value):
+            return float('nan')
+        return float(value.strip(' \t\r\n'))
+    return float(value)
 
 def as_long(value):
     long_cls = long if IS_PYTHON2 else int
@@ -961,6 +977,9 @@ def as_bool(value):
     if isinstance(value, Attrs):
         # a node set is true if and only if it is non-empty
         return len(value) > 0
+    if isinstance(value, float) and value != value:
+        # NaN is false
+        return False
     return bool(value)
 
 
